@@ -443,15 +443,34 @@ def oracle_thread(r) -> list:
         elif k == 'mon-exit':
             mon_exit = (p, e[1])
     set_changed = (mon_exit is not None and mon_exit[1] == ['set-changed'])
+
+    def covered_late(t):
+        """t registered after close() was called, but while close() was still waiting for a thread u registered BEFORE the
+        call whose callback had not yet been invoked: the monitor cannot have made its final check, so t is monitored like
+        any other ("no matter when other threads register")"""
+        if close_called is None or reg_at[t] < close_called:
+            return False
+        for u in reg_at:
+            if reg_at[u] < close_called:
+                first_cb = next((p for (p, w, _) in cbs if w == u), None)
+                if first_cb is None or first_cb > reg_at[t]:
+                    return True
+        return False
+
     fin = set(r['final_active'])
     if close_ret is None:
         bad.append(('thread:close-hangs', 'close() never returned although every registered thread ended'))
     for t in sorted(reg_at):
         n = sum(1 for (_, u, _) in cbs if u == t)
-        if n == 0 and close_called is not None and reg_at[t] > close_called:
-            continue        # registered after close() was called: outside the contract of close()
+        if n == 0 and close_called is not None and reg_at[t] > close_called and not covered_late(t):
+            continue        # registered after close() was called and after everything close() waits for: outside the contract of close()
         if n == 0:
-            if set_changed:
+            if close_called is not None and reg_at[t] > close_called and not set_changed:
+                bad.append(('thread:registration-during-close-dropped',
+                            f'thread {t} registered while close() was still waiting for an earlier thread that had not been called '
+                            f'back; it ended but its callback was never invoked'
+                            + (' and close() returned without waiting for it' if close_ret and died_at.get(t, 1 << 30) > close_ret[0] else '')))
+            elif set_changed:
                 bad.append(('thread:set-changed-size',
                             f'thread {t} registered and ended but its callback was never invoked: the monitor thread '
                             f'died with "RuntimeError: Set changed size during iteration"'))
@@ -473,7 +492,7 @@ def oracle_thread(r) -> list:
             bad.append(('thread:callback-unregistered', f'callback for thread {t} which never registered'))
     if close_ret is not None and close_called is not None:
         for t in sorted(reg_at):
-            if reg_at[t] < close_called:
+            if reg_at[t] < close_called or covered_late(t):
                 if died_at.get(t, 1 << 30) > close_ret[0]:
                     bad.append(('thread:close-early' if not set_changed else 'thread:set-changed-size',
                                 f'close() returned while registered thread {t} was still running'))
@@ -627,7 +646,7 @@ def random_schedule(rng, nthreads, length):
         x = rng.random()
         if x < 0.45:
             lab.append(S('M'))
-        elif x < 0.60 and len(arrived) < nthreads and not closed:
+        elif x < 0.60 and len(arrived) < nthreads and (not closed or rng.random() < 0.5):
             t = rng.choice([u for u in range(1, nthreads + 1) if u not in arrived])
             arrived.add(t); lab.append(['arrive', t])
         elif x < 0.85 and arrived:
